@@ -141,6 +141,18 @@ def relink_prone(m, d, p):
     re-establishes a link through the ordinary setter, which appends the owner to the many-valued opposite
     end of its partner (finding F-C06-relink-order)"""
     k = p[0]
+    if k == 'Delete':
+        # every collection that holds the deleted object, or one of its contents, through a reference with an
+        # opposite: Delete.undo gives the deleted objects their own references back, which appends them there
+        dead = set(koracle.subtree(m, d, p[1]))
+        out = set()
+        for h, od in enumerate(d['objs']):
+            for fi, vals in od['feats'].items():
+                fd = m.fd(fi)
+                if fd['kind'] == 'ref' and fd['many'] and m.opp.get(fi) is not None \
+                        and any(t in dead for t in koracle.objs_of(vals)):
+                    out.add((h, int(fi)))
+        return out
     if k not in ('Set', 'Remove', 'Move') or p[2] >= len(m.ff):
         return set()
     x, fi = p[1], p[2]
@@ -313,7 +325,7 @@ def relink_only(m, cmd, diffs, prone=()):
     `analyse` found relink-prone for a member in the state that member met"""
     prims = flatten(cmd)
     has_del = any(p[0] == 'Delete' for p in prims)
-    if cmd[0] == 'Compound' and not has_del:
+    if cmd[0] == 'Compound':
         return all(cls == 'order' and key in prone for cls, key, _ in diffs)
     own = {(p[1], p[2]) for p in prims if p[0] != 'Delete'}
     touched = {p[2] for p in prims if p[0] != 'Delete'}
@@ -362,10 +374,10 @@ def signature(m, clause, cmd, pre, diffs, extra=(), prone=()):
                 'shape': {'opposite': 'many'}, 'qualifiers': ['partner-collection-order']}
     if 'refused-by-can_undo' in extra:
         return {'property': PID, 'clause': clause, 'kind': k, 'shape': shape, 'qualifiers': ['refused-by-can_undo']}
-    if k == 'Compound' and prone and not has_delete(cmd) and 'member-not-executable-when-reached' not in extra:
+    if k == 'Compound' and prone and 'member-not-executable-when-reached' not in extra:
         # the same re-linking, seen through another member: the owner comes back at the END of a collection
         # that another member of the compound addresses by position, whose undo then works one place off
-        own = {(p[1], p[2]) for p in flatten(cmd)}
+        own = {(p[1], p[2]) for p in flatten(cmd) if p[0] != 'Delete'}
         hit = own & set(prone)
         if hit and any(key in hit for _, key, _ in diffs):
             return {'property': PID, 'clause': 'undo' if clause == 'can_execute-raised' else clause, 'kind': 'relink',
